@@ -55,3 +55,12 @@ add("C19", "exploration", "parameter grid through RunTraceroute and the HTTP han
 add("C20", "exploration", "decision-table oracle over method x target capability x injected failure with a real listener in a peer namespace",
     "Observes probe kinds per handle, listener accepts, error chain (errors.As NotSupportedError / errors.Is injected cause) and result for every combination.",
     SIM + " Faults are combined only with a SACK-capable target.", "DESIGN.md section 5 C20")
+add("C08", "exploration", "virtual-clock bound monitors + cancellation grid + stalled-service responders with an in-bubble watchdog",
+    "Closed-form virtual-time bounds are checked on every simulated run under floods, bursts and valid duplicate streams; engine runs and the context-taking entry points are cancelled on a grid of instants; scripted HTTP/DNS responders stall exactly like http.Transport would. A hang is what the 4x watchdog observes; unbounded liveness is restated as these bounds.",
+    SIM + " UDP/TCP entry points take no context and are not judged for cancellation.", "DESIGN.md section 5 C08")
+add("C12", "exploration", "emitted cBPF programs vs reference predicate over the complete class product in the x/net/bpf VM and the running kernel; filter-on/off twin runs",
+    "The exact programs SetPacketFilter installs are evaluated on the finite product of the equivalence classes of every field they load, in the VM and by the kernel (SO_ATTACH_FILTER), against a predicate written from the statement (exhaustive over the class product for the full-product programs); simulated runs with the real programs enforced must equal their unfiltered twins and no used frame may have a reject verdict.",
+    "Unfragmented = fragment offset 0 (MF-only outside the verdict); kernel verdicts are those of the sandbox kernel.", "DESIGN.md section 5 C12")
+add("C13", "exploration", "real CLI / library caller in kernel-router network namespaces; address-chain oracle",
+    "Replies come from the Linux kernel's IP/ICMP/TCP stack in a chain of namespaces; only addresses, flags and RTT sign are judged; a mismatch must reproduce three times to be reported (kernel timing noise is not a verdict).",
+    "Needs CAP_NET_ADMIN; Linux routers answer from the interface facing the source; the AF_PACKET source, raw sink and BPF attach path are only executed here.", "DESIGN.md section 5 C13")
